@@ -141,9 +141,78 @@ pub fn run_range_rules_t3(rep: &mut Report, drv: &mut Driver) {
     }
 }
 
+/// `new_mess_detector_character` against `Model/CharFlags.lean`, from primitive Unicode facts computed here
+/// with the standard library and icu_properties (not with the crate): all code points (thorough) or a
+/// dense sample (quick)
+pub fn run_flags_t3(rep: &mut Report, drv: &mut Driver, thorough: bool) {
+    use icu_properties::{maps, sets, Script};
+    let gcmap = maps::general_category();
+    let scmap = maps::script();
+    let (ec, em, emb, ep, ui) = (sets::emoji_component(), sets::emoji_modifier(), sets::emoji_modifier_base(), sets::emoji_presentation(), sets::unified_ideograph());
+    let mut batch: Vec<(char, u32)> = vec![];
+    let mut lines: Vec<String> = vec![];
+    let mut n = 0u64;
+    let flush = |batch: &mut Vec<(char, u32)>, lines: &mut Vec<String>, rep: &mut Report, drv: &mut Driver| {
+        if batch.is_empty() {
+            return;
+        }
+        let ans = drv.ask(&format!("flags {}", lines.join(",")));
+        let got: Vec<u32> = ans.strip_prefix("ok ").map(|s| s.split(',').filter_map(|x| x.parse().ok()).collect()).unwrap_or_default();
+        if got.len() != batch.len() {
+            rep.fail("t3", "C04:char-flags-model-disagrees", &format!("bad answer: {}", ans.chars().take(100).collect::<String>()), b"", None, "flags");
+        } else {
+            for ((c, real), g) in batch.iter().zip(got.iter()) {
+                if real != g {
+                    rep.fail("t3", "C04:char-flags-model-disagrees", &format!("U+{:04X}: crate flags {:#x}, model {:#x}", *c as u32, real, g), c.to_string().as_bytes(), None, "flags");
+                    break;
+                }
+            }
+        }
+        batch.clear();
+        lines.clear();
+    };
+    for cp in 0u32..0x110000 {
+        let c = match char::from_u32(cp) {
+            Some(c) => c,
+            None => continue,
+        };
+        if !thorough && cp >= 0x3400 && cp % 11 != 0 && !(0xFE00..0x10000).contains(&cp) && !(0x1F000..0x1FB00).contains(&cp) {
+            continue;
+        }
+        let bits: u32 = (c.is_whitespace() as u32)
+            | (c.is_numeric() as u32) << 1
+            | (c.is_alphabetic() as u32) << 2
+            | (c.is_lowercase() as u32) << 3
+            | (c.is_uppercase() as u32) << 4
+            | ((ec.contains(c) || em.contains(c) || emb.contains(c) || ep.contains(c)) as u32) << 5
+            | (ui.contains(c) as u32) << 6
+            | (vh::is_accentuated(c) as u32) << 7;
+        let gc = gcmap.get(c) as u8;
+        let sc = match scmap.get(c) {
+            Script::Latin => 1,
+            Script::Han => 2,
+            Script::Hangul => 3,
+            Script::Katakana => 4,
+            Script::Hiragana => 5,
+            Script::Thai => 6,
+            _ => 0,
+        };
+        batch.push((c, vh::char_info(c).0));
+        lines.push(format!("{}:{}:{}:{}", cp, bits, gc, sc));
+        n += 1;
+        if batch.len() == 2000 {
+            flush(&mut batch, &mut lines, rep, drv);
+        }
+    }
+    flush(&mut batch, &mut lines, rep, drv);
+    rep.t3_compared += n;
+    rep.count_n("md:char-flags-compared", n);
+}
+
 /// `n` texts: model vs implementation
 pub fn run_mess_t3(rep: &mut Report, drv: &mut Driver, rng: &mut Rng, n: usize) {
     run_range_rules_t3(rep, drv);
+    run_flags_t3(rep, drv, n > 1000);
     for i in 0..n {
         let text = match i % 8 {
             5 => long_runs_text(rng),
